@@ -26,6 +26,7 @@ type Profile struct {
 	NestedTargetBias float64 // probability to target a nested container when one exists
 	KeepProb  float64 // keep detached children alive
 	ReattachProb float64
+	CommitFaultProb float64 // share of generated commits whose first attempt meets a failing ledger write / delete (then retried)
 	MaxElems  int // soft cap per container: above it removals are favoured
 	GrowBias  float64
 	ChildInit int // max initial elements of a new child
@@ -278,7 +279,15 @@ func (g *Gen) commitStep(op string) Step {
 	if g.R.Chance(0.3) {
 		fl = "nfc"
 	}
-	return Step{Op: op, Flavour: fl, Workers: ws[g.R.Intn(len(ws))]}
+	st := Step{Op: op, Flavour: fl, Workers: ws[g.R.Intn(len(ws))]}
+	if g.P.CommitFaultProb > 0 && g.R.Chance(g.P.CommitFaultProb) {
+		// the ledger rejects the k-th write or delete of the first attempt; the commit is retried until it succeeds
+		st.Fault = &FaultSpec{WriteAt: []int{g.R.Range(1, 8)}}
+		if g.R.Chance(0.3) {
+			st.Fault.WriteAt = append(st.Fault.WriteAt, g.R.Range(1, 12))
+		}
+	}
+	return st
 }
 
 var opOrder []string
